@@ -80,7 +80,42 @@ def list_ops(defs, locs):
     for t in locs[:2]:
         for kind in ("listkey", "dictkey", "setkey", "listkey_target"):
             ops.append(("weird", t, kind))
+    # fixed-width integer keys (numpy scalars) on item refs: accepted keys, the program goes on
+    for t in locs[:2]:
+        for kind in NPKINDS:
+            ops.append(("npkey", t, kind))
     return ops
+
+
+# (two definitions writing one slot through differently spelled keys, l[0] and l[np.int64(0)], are
+# left out: they are two independent tasks with the same effect location, their relative order is
+# unspecified in either build)
+NPKINDS = ("int64_target", "int32_target", "int64_read", "uint8_read")
+
+
+def _npkey(st, op):
+    import numpy as np
+    t, kind = op[1], op[2]
+    st.hist.append(f"npkey {kind} <-> {t}")
+    l = st.r["l"]
+    src = U.getref(st.r, t)
+    if kind == "int64_target":
+        l[np.int64(0)] = src * 2
+        st.defs["l0"] = ("mul", ("loc", t), ("const", 2))
+        st.np_defined = ("l0",)
+    elif kind == "int32_target":
+        l[np.int32(1)] = src * 2
+        st.defs["l1"] = ("mul", ("loc", t), ("const", 2))
+        st.np_defined = ("l1",)
+    elif kind == "int64_read":
+        U.assign(st.r, t, l[np.int64(1)] + 1)
+        st.defs[t] = ("add", ("loc", "l1"), ("const", 1))
+    elif kind == "uint8_read":
+        U.assign(st.r, t, l[np.uint8(0)] + 1)
+        st.defs[t] = ("add", ("loc", "l0"), ("const", 1))
+    else:
+        raise ValueError(kind)
+    st.ex.notes["numpy_keys"] = st.ex.notes.get("numpy_keys", 0) + 1
 
 
 def _weird(st, op):
@@ -121,6 +156,9 @@ def run_case(ex, case):
             ops = [o for o in ops if o[0] == "expr"]
         if k > 0:
             ops = [o for o in ops if o[0] != "weird"] if case.get("first_kind") != "weird" else ops
+            ops = [o for o in ops if o[0] != "npkey"]
+            # no second definition / in-place operation on a slot already defined through a numpy key (alias)
+            ops = [o for o in ops if o[1] not in getattr(st, "np_defined", ())]
         i = case["first"] if k == 0 else ex.choose(len(ops))
         if i >= len(ops):
             return
@@ -128,6 +166,9 @@ def run_case(ex, case):
         try:
             if ops[i][0] == "weird":
                 _weird(st, ops[i])
+                continue
+            if ops[i][0] == "npkey":
+                _npkey(st, ops[i])
                 continue
             st.apply(ops[i])
         except (Abort, Inconclusive):
